@@ -2,6 +2,7 @@ package webauthn
 
 import (
 	"crypto"
+	"crypto/rsa"
 	"crypto/sha256"
 	"crypto/subtle"
 	"crypto/x509"
@@ -59,7 +60,7 @@ func VerifyAppleAttestationStatement(
 	// 5. Verify that the credential public key equals the Subject Public Key of credCert.
 	err = verifyAppleAttestationStatementCredentialPublicKey(
 		certificate.PublicKey,
-		publicKey,
+		publicKey.CryptoPublicKey(),
 	)
 	if err != nil {
 		return nil, err
@@ -81,7 +82,12 @@ func verifyAppleAttestationStatementCredentialPublicKey(
 		return fmt.Errorf("%w: unsupported key type: %T", ErrInvalidAttestationStatement, certificatePublicKey)
 	}
 
-	if withEqual.Equal(credentialPublicKey) {
+	// the COSE RSA key reports its crypto key by value, certificates carry a pointer
+	if rsaPublicKey, ok := credentialPublicKey.(rsa.PublicKey); ok {
+		credentialPublicKey = &rsaPublicKey
+	}
+
+	if !withEqual.Equal(credentialPublicKey) {
 		return fmt.Errorf("%w: mismatched public keys", ErrInvalidAttestationStatement)
 	}
 	return nil
